@@ -43,6 +43,10 @@
 //! released and got an ext, `err` when it was released and deleted.
 use crate::common::*;
 use crate::node::*;
+#[path = "c08_dump.rs"]
+mod dump8;
+#[path = "c08_pool.rs"]
+mod pool8;
 use ckb_chain::{LonelyBlock, VerifyResult};
 use ckb_db::RocksDB;
 use ckb_db_schema::{COLUMNS, COLUMN_BLOCK_HEADER};
@@ -1603,9 +1607,52 @@ fn expected_scan(h: &Hist, tip: usize, unext: &[usize]) -> Vec<usize> {
 // recovery of a crashed directory in the parent
 // ------------------------------------------------------------------------------------------------
 
+/// Self-test of the crash-point dump (never set by bin/check): `VERIF_C08_TAMPER=<kind>` removes one row of
+/// the crashed database before it is inspected, as a commit torn across column families would — the run
+/// must then end with a VIOLATION. Kinds: txinfo, uncles, epnum, body (one of the six block-row columns of
+/// the tip), mmr (the last chain-root MMR row), cell, index.
+fn tamper(db: &ChainDB, kind: &str) {
+    use ckb_db::iter::IteratorMode;
+    use ckb_db_schema::*;
+    let Some(tip) = db.get_tip_header() else { return };
+    if tip.number() == 0 {
+        return;
+    }
+    let txn = db.begin_transaction();
+    let last = |col| db.get_iter(col, IteratorMode::Start).map(|(k, _)| k.to_vec()).last();
+    match kind {
+        "txinfo" => {
+            if let Some(tx) = db.get_block(&tip.hash()).map(|b| b.transactions()[0].hash()) {
+                txn.delete(COLUMN_TRANSACTION_INFO, tx.as_slice()).unwrap();
+            }
+        }
+        "uncles" => {
+            if let Some(k) = last(COLUMN_UNCLES) {
+                txn.delete(COLUMN_UNCLES, &k).unwrap();
+            }
+        }
+        "epnum" => txn.delete(COLUMN_EPOCH, &0u64.to_le_bytes()).unwrap(),
+        "body" => txn.delete(COLUMN_BLOCK_PROPOSAL_IDS, tip.hash().as_slice()).unwrap(),
+        "mmr" => {
+            let size = ckb_merkle_mountain_range::leaf_index_to_mmr_size(tip.number());
+            txn.delete_header_digest(size - 1).unwrap();
+        }
+        "cell" => {
+            if let Some(k) = last(COLUMN_CELL) {
+                txn.delete(COLUMN_CELL, &k).unwrap();
+            }
+        }
+        "index" => txn.delete(COLUMN_INDEX, &tip.number().to_le_bytes()).unwrap(),
+        _ => panic!("VERIF_C08_TAMPER: unknown kind {kind}"),
+    }
+    txn.commit().unwrap();
+}
+
 struct Crashed {
     view: StateView,
     unext: Vec<usize>,
+    /// the full column dump (answer of op `dump`)
+    dump: String,
 }
 
 /// (1) open the crashed database without services, evaluate the consistency oracle
@@ -1619,11 +1666,18 @@ fn inspect_crashed(out: &mut Out, h: &Hist, builder: &mut ChainBuilder, node_dir
             return None;
         }
     };
-    let r = std::panic::catch_unwind(std::panic::AssertUnwindSafe(|| check_store(out, &db, h, builder, what)));
+    if let Ok(kind) = std::env::var("VERIF_C08_TAMPER") {
+        tamper(&db, &kind);
+    }
+    let r = std::panic::catch_unwind(std::panic::AssertUnwindSafe(|| {
+        let (view, unext) = check_store(out, &db, h, builder, what);
+        let dump = store_dump(out, &db, h, builder, what);
+        (view, unext, dump)
+    }));
     drop(db);
     tick(&T_INSPECT_US, t_inspect);
     match r {
-        Ok((view, unext)) => Some(Crashed { view, unext }),
+        Ok((view, unext, dump)) => Some(Crashed { view, unext, dump }),
         Err(_) => {
             out.oracle_fail("open-failed", &format!("{what}: reading the crashed database panicked"));
             None
@@ -1724,6 +1778,8 @@ fn restart_and_redeliver(out: &mut Out, h: &Hist, builder: &mut ChainBuilder, no
             if emit {
                 out.op(&restart_op, &fmt_line(&[], &v));
                 out.op(&format!("pview {} {}", h.cfg.window.0, h.cfg.window.1), &pview_answer(&node, h));
+                let dl = store_dump_k(out, node.store(), h, builder, &format!("{what}: after the restart"), "restarted-node-full-column-dump-compared");
+                out.op("dump", &dl);
             }
             // what start-up rebuilt, against the replay oracle over the stored main chain
             check_recon(out, h, builder, &node, &v, what, "after the restart");
@@ -1770,6 +1826,8 @@ fn restart_and_redeliver(out: &mut Out, h: &Hist, builder: &mut ChainBuilder, no
                         if emit {
                             out.op(&format!("deliver {} {}", id, show_ids(&d.hint)), &fmt_line(&d.cbs, &d.view));
                             out.op(&format!("pview {} {}", h.cfg.window.0, h.cfg.window.1), &pview_answer(&node, h));
+                            let dl = store_dump_k(out, node.store(), h, builder, &format!("{what}: after the delivery of {id} following the restart"), "restarted-node-full-column-dump-compared");
+                            out.op("dump", &dl);
                         }
                         check_recon(out, h, builder, &node, &d.view, what, &format!("after the delivery of {id} following the restart"));
                         last = (d.view.tip, d.view.td);
@@ -1877,6 +1935,23 @@ fn describe_exit(e: &ChildExit, job: &ChildJob) -> String {
 }
 
 fn emit_blks(out: &mut Out, h: &Hist) {
+    emit_blks_opt(out, h, true);
+}
+
+/// the ids of the store dump (blocks by history id, transactions by first appearance, uncles)
+fn dump_ids(h: &Hist) -> dump8::Ids {
+    let blocks: Vec<&BlockView> = h.blks.iter().map(|b| b.block.as_ref()).collect();
+    dump8::Ids::build(&blocks, h.consensus.genesis_epoch_ext().length())
+}
+
+/// `gtx` / `genesis` / `tx` / `body`: the content of every block for the model's store view
+fn emit_bodies(out: &mut Out, h: &Hist) {
+    for l in &dump_ids(h).lines {
+        out.op(l, "ok");
+    }
+}
+
+fn emit_blks_opt(out: &mut Out, h: &Hist, bodies: bool) {
     out.op(&format!("win {} {}", h.cfg.window.0, h.cfg.window.1), "ok");
     for b in &h.blks {
         out.op(&blk_line(b), "ok");
@@ -1884,6 +1959,48 @@ fn emit_blks(out: &mut Out, h: &Hist) {
             out.op(&p, "ok");
         }
     }
+    if bodies {
+        emit_bodies(out, h);
+    }
+}
+
+/// The full column dump of a (crashed) database — the answer of op `dump` — and, on the implementation
+/// alone, the property: every column of the persisted main-chain view equals the same dump of a store that
+/// only ever attached genesis..=persisted tip (`ChainBuilder::replay_store`), the per-block records of that
+/// chain are all there, the chain-root MMR rows below the tip's size are the replay's, no block is torn.
+fn store_dump<S: ChainStore>(out: &mut Out, db: &S, h: &Hist, builder: &mut ChainBuilder, what: &str) -> String {
+    store_dump_k(out, db, h, builder, what, "crash-point-full-column-dump-compared")
+}
+
+fn store_dump_k<S: ChainStore>(out: &mut Out, db: &S, h: &Hist, builder: &mut ChainBuilder, what: &str, kind: &str) -> String {
+    let ids = dump_ids(h);
+    let gd = h.consensus.genesis_block().header().difficulty();
+    let mut d = dump8::dump(db, &ids, &gd);
+    let tip = db.get_tip_header();
+    let tip_id = tip.as_ref().and_then(|t| h.by_hash.get(&t.hash()).copied());
+    match (tip, tip_id) {
+        (Some(t), Some(id)) if h.path(id).iter().all(|i| h.blks[*i].kind == Kind::Valid) => {
+            let replay = builder.replay_store(&t.hash());
+            let mut r = dump8::dump(replay, &ids, &gd);
+            dump8::put_mmr(&mut d, db, Some(replay), t.number());
+            dump8::put_mmr(&mut r, replay, None::<&ChainDB>, t.number());
+            for (class, detail) in dump8::compare_with_replay(&d, &r) {
+                out.oracle_fail(&class, &format!("{what}: tip={id}: {detail}"));
+            }
+            if d.sec.get("mmr") != r.sec.get("mmr") {
+                out.oracle_fail("crash-mmr-neq-replay", &format!("{what}: tip={id}: chain-root MMR rows below the tip's size: node {:?} replay {:?}", d.sec.get("mmr"), r.sec.get("mmr")));
+            }
+        }
+        (Some(t), _) => dump8::put_mmr(&mut d, db, None::<&ChainDB>, t.number()),
+        _ => {}
+    }
+    if let Some(m) = d.sec.get("body") {
+        for v in m.values().filter(|v| v.ends_with('!')) {
+            out.oracle_fail("crash-torn-block", &format!("{what}: the block rows of {v} are only partly there"));
+        }
+    }
+    out.count(kind);
+    d.line()
 }
 
 fn classify(prev: &StateView, next: &StateView) -> &'static str {
@@ -1943,7 +2060,10 @@ fn multi_case(out: &mut Out, h: &Hist, builder: &mut ChainBuilder, env: &ChildEn
         return;
     };
     match (&e1, l1.inflight) {
-        (ChildExit::Signal(_), Some((id, c0))) => out.op(&format!("crashdeliver {id} {}", n1 - c0), &fmt_line(&[], &crashed1.view)),
+        (ChildExit::Signal(_), Some((id, c0))) => {
+            out.op(&format!("crashdeliver {id} {}", n1 - c0), &fmt_line(&[], &crashed1.view));
+            out.op("dump", &crashed1.dump);
+        }
         (ChildExit::Signal(_), None) => out.count("crash-outside-delivery"),
         _ => out.count("first-run-completed"),
     }
@@ -1977,6 +2097,7 @@ fn multi_case(out: &mut Out, h: &Hist, builder: &mut ChainBuilder, env: &ChildEn
                 match l2.inflight {
                     Some((id, _)) => {
                         out.op(&format!("crashsome {} {}", id, obs.replace(' ', "|")), &obs);
+                        out.op("dump", &crashed.dump);
                         out.count("second-crash-inside-delivery-after-startup-full-state-compared");
                     }
                     None => out.count("crash-outside-delivery"),
@@ -1986,6 +2107,7 @@ fn multi_case(out: &mut Out, h: &Hist, builder: &mut ChainBuilder, env: &ChildEn
         _ => {
             // killed before the start-up phase was over: some prefix of the re-verification
             out.op(&format!("crash2 {} {} {}", h.consensus.max_epoch_length(), show_ids(&h.scan_order()), obs.replace(' ', "|")), &obs);
+            out.op("dump", &crashed.dump);
             out.count("second-level-crash-during-startup-reverification");
         }
     }
@@ -2039,6 +2161,7 @@ fn second_level_case(out: &mut Out, h: &Hist, builder: &mut ChainBuilder, env: &
         return;
     };
     out.op(&format!("crashdeliver {id} {}", n1 - c0), &fmt_line(&[], &crashed1.view));
+    out.op("dump", &crashed1.dump);
     let e2 = run_child(env, &j2);
     out.count("child-run");
     let l2 = parse_log(&j2.log);
@@ -2062,6 +2185,7 @@ fn second_level_case(out: &mut Out, h: &Hist, builder: &mut ChainBuilder, env: &
     out.count("crash-point");
     let obs = fmt_line(&[], &crashed2.view);
     out.op(&format!("crash2 {} {} {}", h.consensus.max_epoch_length(), show_ids(&h.scan_order()), obs.replace(' ', "|")), &obs);
+    out.op("dump", &crashed2.dump);
     if crashed2.view.ext.len() > crashed1.view.ext.len() && !crashed2.unext.is_empty() {
         out.count("second-level-crash-mid-reverification");
         out.nontrivial(h.fingerprint(order, &[n1, n2, 13]));
@@ -2225,6 +2349,7 @@ fn one_history(out: &mut Out, opts: &Opts, rng: &mut Rng, base: &Path, hno: u64,
             return;
         };
         out.op(&format!("crashdeliver {id} {k}"), &fmt_line(&[], &crashed.view));
+        out.op("dump", &crashed.dump);
         // classification of the commit the crash preceded, from the next crash point's persisted state
         if !after {
             if let Some((pn, pv, _)) = &prev_view {
@@ -2649,6 +2774,7 @@ fn fork_recover(out: &mut Out, fc: &ForkCase, builder: &mut ChainBuilder, tails:
     }
     let v = burst.iter().filter(|b| has_ext.contains(b)).count();
     out.op(&format!("burstcrash {} {} {}", show_ids(burst), i, v), &fmt_line(&[], &crashed.view));
+    out.op("dump", &crashed.dump);
     let Some(tip) = crashed.view.tip else { return };
     let tipn = h.blks[tip].num;
     if !crashed.unext.is_empty() {
@@ -2705,6 +2831,8 @@ fn fork_recover(out: &mut Out, fc: &ForkCase, builder: &mut ChainBuilder, tails:
 
     // ---- what start-up rebuilt: against the model (`pview`) and the replay oracle ...
     out.op(&format!("pview {} {}", WINDOW.0, fc.wfar), &pview_answer(&node, h));
+    let dl0 = store_dump_k(out, node.store(), h, builder, &format!("{what}: after the restart"), "restarted-node-full-column-dump-compared");
+    out.op("dump", &dl0);
     let got0 = check_recon(out, h, builder, &node, &v0, what, "after the restart");
     count_uncle_distances(out, h, tip, fc.wfar);
 
@@ -2762,6 +2890,8 @@ fn fork_recover(out: &mut Out, fc: &ForkCase, builder: &mut ChainBuilder, tails:
             Ok(d) => {
                 out.op(&format!("deliver {} {}", id, show_ids(&d.hint)), &fmt_line(&d.cbs, &d.view));
                 out.op(&format!("pview {} {}", WINDOW.0, wfar), &pview_answer(r.node, h));
+                let dl = store_dump_k(out, r.node.store(), h, builder, &format!("{what}: after the delivery of {id} following the restart"), "restarted-node-full-column-dump-compared");
+                out.op("dump", &dl);
                 *last = (d.view.tip, d.view.td);
                 let got = check_recon(out, h, builder, r.node, &d.view, what, &format!("after the delivery of {id} following the restart"));
                 if *ref_ok {
@@ -3111,7 +3241,7 @@ fn edge_case(out: &mut Out, opts: &Opts, base: &Path) {
     let by_hash = hash_map(&blks);
     let h = Hist { el: 1800, cfg: cfg.clone(), consensus: consensus.clone(), blks, by_hash };
     out.begin_case(&format!("edge el=1800 L={l} lower-edge={}", l - expired * mel));
-    emit_blks(out, &h);
+    emit_blks_opt(out, &h, false);
     out.op("consts", &format!("mel={} expired={} bdw={}", mel, expired, ckb_constant::sync::BLOCK_DOWNLOAD_WINDOW));
     out.op("longchain 1,2,3,4,5,6,7", "ok");
     out.count("edge-case");
@@ -3185,6 +3315,25 @@ fn generate(out: &mut Out, opts: &Opts, base: &Path) {
     }
     if opts.extra.iter().any(|x| x == "only-edge") {
         return;
+    }
+    // family `pool`: restart with the tx-pool service on (persisted pool file). First the hand-written
+    // slot-reuse history (X, P submitted, X removed, C = child of P submitted, clean save, restart), then
+    // generated ones.
+    if !opts.extra.iter().any(|x| x == "only-fork") {
+        let crafted = pool8::PoolPlan { cut: 100, el: 4, nb: 2, specs: pool8::parse_specs("g16/1;g17/1;t1:0/1"), a: "D1,+0,+1,-0,+2,S".into(), b: "S".into() };
+        pool8::pool_case(out, opts, base, &exe, "pool-x", &crafted);
+        // a process that died inside save_into_file: the next start finds a file cut short
+        let torn = pool8::PoolPlan { cut: 50, el: 4, nb: 2, specs: pool8::parse_specs("g16/1;g17/2;t1:1/1"), a: "D1,+0,+1,+2,S".into(), b: "+0,S".into() };
+        pool8::pool_case(out, opts, base, &exe, "pool-t", &torn);
+        let np = if opts.thorough() { 40 * opts.scale } else { 5 * opts.scale };
+        for k in 0..np {
+            let plan = pool8::gen_pool_plan(&mut rng);
+            pool8::pool_case(out, opts, base, &exe, &format!("pool-{k}"), &plan);
+        }
+        eprintln!("C08: pool family done, {} cases, {:.1}s", out.case, t0.elapsed().as_secs_f64());
+        if opts.extra.iter().any(|x| x == "only-pool") {
+            return;
+        }
     }
     for hno in 0..nh {
         // hno % 5: 0 random tree, 1 deep (one linear orphan chain), 2 fork (burst, no re-delivery), 3 random tree, 4 fork
@@ -3322,6 +3471,22 @@ fn replay_case(out: &mut Out, opts: &Opts, label: &[&str], lines: &[String], bas
         edge_case(out, opts, base);
         return;
     }
+    if label.first() == Some(&"pool") {
+        // regenerated from the label (el, nb, txs, a, b); the recorded ops are not used
+        let get = |k: &str| label.iter().find_map(|t| t.strip_prefix(k)).unwrap_or("").to_string();
+        let dash = |s: String| if s == "-" { String::new() } else { s };
+        let plan = pool8::PoolPlan {
+            cut: label_num(label, "cut=").unwrap_or(100).min(100),
+            el: label_num(label, "el=").unwrap_or(4).clamp(1, 1000),
+            nb: (label_num(label, "nb=").unwrap_or(2) as usize).clamp(1, 15),
+            specs: pool8::parse_specs(&get("txs=")),
+            a: dash(get("a=")),
+            b: dash(get("b=")),
+        };
+        let exe = std::env::current_exe().expect("current_exe");
+        pool8::pool_case(out, opts, base, &exe, &format!("pool-r{cno}"), &plan);
+        return;
+    }
     let el = label_num(label, "el=").unwrap_or(4).clamp(1, 1000);
     let wf = label_num(label, "wf=");
     let cfg = match wf {
@@ -3357,7 +3522,7 @@ fn replay_case(out: &mut Out, opts: &Opts, label: &[&str], lines: &[String], bas
                 out.op(&p, "ok");
             }
             blks.push(b);
-        } else if t[0] == "prop" || t[0] == "pview" || t[0] == "win" {
+        } else if t[0] == "prop" || t[0] == "pview" || t[0] == "win" || t[0] == "gtx" || t[0] == "genesis" || t[0] == "tx" || t[0] == "body" || t[0] == "dump" {
             // `win` / `prop` are functions of the label / the blk lines (re-emitted), `pview` follows every `restart` / later `deliver`
         } else {
             ops.push(t.iter().map(|x| x.to_string()).collect());
@@ -3366,6 +3531,7 @@ fn replay_case(out: &mut Out, opts: &Opts, label: &[&str], lines: &[String], bas
     assert!(!blks.is_empty(), "no blk lines");
     let by_hash = hash_map(&blks);
     let h = Hist { el, cfg, consensus, blks, by_hash };
+    emit_bodies(out, &h);
     let id_of = |s: &str| -> usize {
         let id: usize = s.parse().unwrap_or_else(|_| panic!("bad id {s}"));
         assert!(id < h.blks.len(), "unknown block id {id}");
@@ -3496,6 +3662,7 @@ fn replay_case(out: &mut Out, opts: &Opts, label: &[&str], lines: &[String], bas
             return;
         };
         out.op(&format!("crashdeliver {cid} {k}"), &fmt_line(&[], &crashed.view));
+        out.op("dump", &crashed.dump);
         if !crashed.unext.is_empty() {
             out.nontrivial(h.fingerprint(&ids, &[k]));
         }
@@ -3524,6 +3691,7 @@ fn replay_case(out: &mut Out, opts: &Opts, label: &[&str], lines: &[String], bas
             };
             let obs = fmt_line(&[], &c2.view);
             out.op(&format!("crash2 {} {} {}", h.consensus.max_epoch_length(), show_ids(&h.scan_order()), obs.replace(' ', "|")), &obs);
+            out.op("dump", &c2.dump);
             crashed = c2;
             rest = &rest[1..];
         }
@@ -3640,6 +3808,9 @@ pub fn run(opts: &Opts) {
     }
     if opts.extra.first().map(|s| s == "child2").unwrap_or(false) {
         child2_main(opts);
+    }
+    if opts.extra.first().map(|s| s == "child3").unwrap_or(false) {
+        pool8::child3_main(opts);
     }
     if opts.extra.first().map(|s| s == "race-probe").unwrap_or(false) {
         race_probe(opts);
